@@ -7,7 +7,8 @@ Local Open Scope string_scope.
 
 Inductive case33 :=
 | KRaw (data : list N)                          (* Message.fromStr of arbitrary bytes *)
-| KTcp (data : list N) (cuts : list N).         (* DNSProtocol.dataReceived over the stream cut into segments *)
+| KTcp (data : list N) (cuts : list N)          (* DNSProtocol.dataReceived over the stream cut into segments *)
+| KUdp (data : list N).                         (* DNSDatagramProtocol.datagramReceived *)
 
 (** cut [data] into chunks of the given sizes (a zero or missing size takes the rest) *)
 Fixpoint chunks (cuts : list N) (data : list N) : list (list N) :=
@@ -28,4 +29,10 @@ Definition run33 (c : case33) : string :=
       let s := ffeed_all dns_bad (finit) (chunks cuts d) in
       String.concat " ; " (map show_frame (f_outs s)) ++ "|"
       ++ match f_err s with None => "ok" | Some e => show_exn e end
+  | KUdp d =>
+      match udp_receive d with
+      | UDelivered m => "delivered:" ++ show_message m
+      | UDropped => "dropped"
+      | UUnexpected _ => "unexpected"
+      end
   end.
